@@ -95,6 +95,7 @@ class C07:
         "thorough": {"runs": 1800, "budget_s": 1700, "chunk": 2, "run_timeout_s": 300},
     }
     EVAL_COUNTER = "evaluations"
+    DETERMINISM_PROBE_RUNS = 1
     RULE = ("one run = 10 items (two generated documents in one of JSON/JSON5/YAML/plist/XML/HTML/CSV + options drawn "
             "from the CLI surface: dict strategy incl. -k, -l/-ll, -e/-d/full, --format, --html, colour flags, "
             "-j/-jl/-jd, status flags) executed twice each at seeded positions of one in-process history with "
